@@ -29,4 +29,7 @@ def replay(which):
     late = [int(x.split(':')[1]) for x in out.get('starting', '').split(',') if x.startswith('s:')]
     if late != [2, 4, 6, 8]:
         bad.append('a subscriber that was still starting when 2 and 4 were published must receive 2, 4, 6, 8: %s' % late)
+    late_f = [int(x.split(':')[1]) for x in out.get('starting_filtered', '').split(',') if x.startswith('s:')]
+    if late_f != [4, 6, 8]:
+        bad.append('a subscriber that was still starting when 9 (filtered by its converter) and 4 were published must receive 4, 6, 8: %s' % late_f)
     return {'replayed': bool(bad), 'detail': 'native output-port script: %s ; deliveries %s ; late starter %s ; %s' % (bad, got, late, [x for x in log if x.startswith('subs_')]), 'replay': {'which': which}}
